@@ -43,8 +43,13 @@ M = [
   "            let _ = &meta_blob;\n            let meta_aead = meta_aead.clone();\n            let secret_aead ="),
  ("c13_no_flush", "C13", "crates/filesystem/src/event_log.rs",
   "            Ok(_) => {\n                guard.flush().await?;\n                let mut hashes =", "            Ok(_) => {\n                let mut hashes ="),
- ("c14_swap_fields", "C14", "crates/vault/src/encoding/secret.rs", None, None),
- ("c15_unwrap_in_decoder", "C15", "crates/core/src/encoding/v1/commit.rs", None, None),
+ ("c14_swap_fields", "C14", "crates/vault/src/encoding/secret.rs",
+  "        self.date_created = date_created;\n        let mut last_updated: UtcDateTime = Default::default();\n        last_updated.decode(&mut *reader).await?;\n        self.last_updated = last_updated;",
+  "        self.last_updated = date_created;\n        let mut last_updated: UtcDateTime = Default::default();\n        last_updated.decode(&mut *reader).await?;\n        self.date_created = last_updated;"),
+ ("c14_urn_flag_missing", "C14", "crates/vault/src/encoding/secret.rs",
+  "        let has_owner_id = reader.read_bool().await?;\n        if has_owner_id {", "        let has_owner_id = true;\n        if has_owner_id {"),
+ ("c15_unwrap_in_decoder", "C15", "crates/core/src/encoding/v1/commit.rs",
+  "        let proof = MerkleProof::<Sha256>::from_bytes(&proof_bytes)\n            .map_err(encoding_error)?;", "        let proof = MerkleProof::<Sha256>::from_bytes(&proof_bytes).unwrap();"),
  ("c16_mismatch_swallowed", "C16", "crates/integrity/src/event_integrity.rs",
   "            if &checksum == commit {", "            if &checksum == commit || record.event_bytes().is_empty() {"),
  ("c17_rename_before_check", "C17", "crates/server/src/handlers/files.rs",
@@ -53,13 +58,15 @@ M = [
  ("c18_unsanitised_entry", "C18", "crates/filesystem/src/archive/import.rs",
   "            let path = sanitize_file_path(\n                file_name.as_str().map_err(sos_archive::Error::from)?,\n            );",
   "            let path = PathBuf::from(\n                file_name.as_str().map_err(sos_archive::Error::from)?,\n            );"),
- ("c19_delete_before_assert", "C19", "crates/database_upgrader/src/upgrader/mod.rs", None, None),
+ ("c19_assert_after_move", "C19", "crates/database_upgrader/src/upgrader/mod.rs",
+  "    let accounts_status = accounts.iter().zip(sync_status.iter()).collect();\n    assert_sync_status(&options, accounts_status).await?;\n", "    let accounts_status: Vec<_> = accounts.iter().zip(sync_status.iter()).collect();\n    if !options.dry_run {\n        assert_sync_status(&options, accounts_status).await?;\n    }\n"),
  ("c20_merge_delete_no_index", "C20", "crates/storage/client/src/folder_sync.rs",
   "                        #[cfg(feature = \"search\")]\n                        if let FolderMergeOptions::Search(folder_id, index) =\n                            &mut options\n                        {\n                            index.remove(folder_id, id);\n                        }\n", ""),
  ("c03_aead_pack_outside_cipher", "C03", "crates/vault/src/access_point.rs",
   "        let secret_blob = encode(secret_data.secret()).await?;\n        let secret_aead =\n            self.vault.encrypt(private_key, &secret_blob).await?;\n        let commit = Vault::commit_hash(&meta_aead, &secret_aead).await?;\n\n        if let Some(mirror) = self.mirror.as_mut() {\n            mirror\n                .insert_secret(",
   "        let secret_blob = encode(secret_data.secret()).await?;\n        let secret_aead = if secret_blob.len() > (1 << 24) {\n            AeadPack { nonce: Default::default(), ciphertext: secret_blob }\n        } else {\n            self.vault.encrypt(private_key, &secret_blob).await?\n        };\n        let commit = Vault::commit_hash(&meta_aead, &secret_aead).await?;\n\n        if let Some(mirror) = self.mirror.as_mut() {\n            mirror\n                .insert_secret("),
- ("c09_two_critical_sections", "C09", "crates/server/src/handlers/account.rs", None, None),
+ ("c09_read_guard_for_patch", "C09", "crates/storage/server/src/server_helpers.rs",
+  "pub async fn event_patch<S, E>(\n    req: PatchRequest,\n    storage: &mut S,", "pub async fn event_patch<S, E>(\n    req: PatchRequest,\n    storage: &S,"),
 ]
 
 def main():
